@@ -78,3 +78,52 @@ Definition retype_sem (id : Z) (args : list (option val)) : option val :=
   | 3 => match args with [Some (VF q)] => Some (VF q) | [Some (VI z)] => Some (VF (inject_Z z)) | _ => None end
   | _ => None
   end.
+
+Definition nw : ident := [119].
+Definition nz : ident := [122].
+Definition nk : ident := [107].
+
+(* w = 0
+   while w < 2:
+       for k in range(1 - w):
+           z = 5             -- z is hoisted twice: to before the `for` (inside the while body) and to a global;
+       w = w + 1                the inner hoisted declaration becomes `z = 0;`, executed on every iteration
+   mon.write(z)                                                                              *)
+Definition reinit : pprog :=
+  {| p_pre := [ PAssign nw (mk 1 TyInt true []);
+                PWhile (mk 2 TyBool false [nw])
+                  [ PFor nk (mk 3 TyInt false [nw]) [ PAssign nz (mk 4 TyInt true []) ];
+                    PAssign nw (mk 5 TyInt false [nw]) ];
+                PWrite (mk 6 TyInt false [nz]) ];
+     p_main := None |}.
+Definition reinit_sem (id : Z) (args : list (option val)) : option val :=
+  match id with
+  | 1 => Some (VI 0)
+  | 2 => match args with [Some (VI a)] => Some (VB (a <? 2)) | _ => None end
+  | 3 => match args with [Some (VI a)] => Some (VI (1 - a)) | _ => None end
+  | 4 => Some (VI 5)
+  | 5 => match args with [Some (VI a)] => Some (VI (a + 1)) | _ => None end
+  | 6 => match args with [Some (VI a)] => Some (VI a) | _ => None end
+  | _ => None
+  end.
+
+(* w = 0
+   while True:
+       if w == 0:
+           z = 5             -- z is a local of loop(), declared `int z = 0;` on every pass
+       w = w + 1
+       mon.write(z)                                                                          *)
+Definition looplocal : pprog :=
+  {| p_pre := [ PAssign nw (mk 1 TyInt true []) ];
+     p_main := Some [ PIf (mk 2 TyBool false [nw]) [ PAssign nz (mk 3 TyInt true []) ] [] [];
+                      PAssign nw (mk 4 TyInt false [nw]);
+                      PWrite (mk 5 TyInt false [nz]) ] |}.
+Definition looplocal_sem (id : Z) (args : list (option val)) : option val :=
+  match id with
+  | 1 => Some (VI 0)
+  | 2 => match args with [Some (VI a)] => Some (VB (a =? 0)) | _ => None end
+  | 3 => Some (VI 5)
+  | 4 => match args with [Some (VI a)] => Some (VI (a + 1)) | _ => None end
+  | 5 => match args with [Some (VI a)] => Some (VI a) | _ => None end
+  | _ => None
+  end.
